@@ -92,7 +92,7 @@ class Skel:
             return self.child_value
         if k == 'some':
             pv = self.ev(t[1])
-            return Opt(True, pv if isinstance(pv, Seq) else None)
+            return Opt(True, pv if (isinstance(pv, Seq) or (isinstance(pv, int) and not isinstance(pv, bool))) else None)
         if k == 'none':
             return Opt(False)
         if k == 'is_some':
@@ -202,10 +202,15 @@ class Skel:
             if all(v is False for v in vs):
                 return False
             return U
-        if name in ('iadd', 'isub', 'imul', 'imin', 'imax'):
+        if name in ('iadd', 'isub', 'imul', 'imin', 'imax', 'saturating_sub', 'saturating_add', 'wrapping_add', 'wrapping_sub', 'idiv', 'irem'):
             a, b = self.ev(args[0]), self.ev(args[1])
             if isinstance(a, int) and isinstance(b, int) and not isinstance(a, bool):
-                r = {'iadd': a + b, 'isub': a - b, 'imul': a * b, 'imin': min(a, b), 'imax': max(a, b)}[name]
+                if name in ('idiv', 'irem'):
+                    if b == 0:
+                        return U
+                    return a // b if name == 'idiv' else a % b
+                r = {'iadd': a + b, 'isub': a - b, 'imul': a * b, 'imin': min(a, b), 'imax': max(a, b), 'saturating_sub': max(a - b, 0),
+                     'saturating_add': a + b, 'wrapping_add': a + b, 'wrapping_sub': a - b}[name]
                 return r
             return U
         if name in ('eq', 'ne', 'lt', 'le', 'gt', 'ge'):
